@@ -1,6 +1,7 @@
 import PystogVerif.Driver
 import PystogVerif.Model.Stog
 import PystogVerif.Model.Rebin
+import PystogVerif.Model.Writer
 /-! Driver entry points of the hand-written models (Float reading) -/
 
 def flag (x : Float) : Bool := x != 0.0
@@ -23,4 +24,18 @@ def Model.dispatch (name : String) (a : Array Arg) : Except String (List (List F
   | "Model.rebin" => do
       let r := Rebin.rebin (← Arg.getVec a 0) (← Arg.getVec a 1) (← Arg.getScalar a 2) (← Arg.getScalar a 3) (← Arg.getScalar a 4)
       pure [r.1, r.2]
+  | "Model.fileText" => do
+      -- returns the bytes of the file as numbers (all characters are ASCII)
+      let xs := (← Arg.getVec a 0).map Float.toBits
+      let ys := (← Arg.getVec a 1).map Float.toBits
+      pure [(Writer.fileText xs ys).map (fun c => Float.ofNat c.toNat)]
+  | "Model.readBack" => do
+      -- (sign, round(|v|*10^12)) for both columns of the file written for x, y; -1 marks a parse failure
+      let xs := (← Arg.getVec a 0).map Float.toBits
+      let ys := (← Arg.getVec a 1).map Float.toBits
+      let rows := Writer.readRows (Writer.fileLines xs ys)
+      let enc : Option (Bool × Nat) → List Float := fun o => match o with
+        | some (s, n) => [if s then 1.0 else 0.0, Float.ofNat (n / 10^12), Float.ofNat (n % 10^12)]
+        | Option.none => [-1.0, -1.0, -1.0]
+      pure [rows.flatMap (fun r => enc r.1), rows.flatMap (fun r => enc r.2)]
   | _ => throw "unknown-entry"
